@@ -425,10 +425,24 @@ def reads(tokens, var):
 
 # ------------------------------------------------------------------ flag discipline
 
-def unchecked_flags(body, producers):
+def unchecked_flags(body, producers, opaque=None, unknown=None):
     """Dataflow over the statement tree: a variable assigned from a call to one of `producers` must be read
-    before it is overwritten or the function returns.  -> [(var, callee, how)]"""
+    before it is overwritten or the function returns.  -> [(var, callee, how)]
+    `opaque(name, var)`: can a call `name(..)` read `var` without naming it (a local closure that captured it, a function that
+    could not be looked into)?  Such a call may be the test: the pending status is dropped from the verdict and listed in
+    `unknown` as (var, callee, name) instead of being reported as untested."""
     problems = []
+
+    def reads(toks, v):
+        if _reads(toks, v):
+            return True
+        if opaque is not None:
+            for j, t in enumerate(toks):
+                if IDENT.match(t) and toks[j + 1:j + 2] == ["("] and not (j and toks[j - 1] in (".", "->", "::")) and opaque(t, v):
+                    if unknown is not None and (v, t) not in [(a, c) for a, b, c in unknown]:
+                        unknown.append((v, None, t))
+                    return True
+        return False
 
     def run(st, pending):
         k = st[0]
@@ -480,8 +494,9 @@ def unchecked_flags(body, producers):
             if k == "dowhile" and not after_once:
                 return after_once            # the body ran: what it read is read (None: it always leaves)
             if after_once:
-                # second iteration: anything still pending that gets re-assigned is an overwrite
-                again = run(bodyst, dict(after_once))
+                # second iteration: anything still pending that gets re-assigned is an overwrite -- unless the loop condition,
+                # evaluated in between, reads it (`for (..; k < n && flag == RETRY; ..) flag = call();`)
+                again = run(bodyst, {v: c for v, c in after_once.items() if not reads(cond, v)})
                 merged = dict(pend)
                 merged.update(after_once)
                 if again:
@@ -507,6 +522,7 @@ def unchecked_flags(body, producers):
             return out
         return dict(pending)
 
+    _reads = globals()["reads"]
     end = run(body, {})
     if end:
         for v, c in end.items():
@@ -1020,7 +1036,9 @@ def _expr_inline(tokens, helpers, depth=0):
         return tokens
     for i, j, name, args in _calls_in(tokens, helpers):
         h = _hinfo(helpers[name])
-        if h and h[1] == [] and h[2] and h[3] and len(args) == len(h[0]) and all(args):
+        args = _with_defaults(args, helpers[name])
+        # (replaced in place nothing is re-ordered: the helper need not be pure, it only must not write anything)
+        if h and h[1] == [] and h[2] and (h[3] or not written(helpers[name][1])) and len(args) == len(h[0]) and all(args):
             m = {p[0]: (list(a) if len(a) == 1 else ["("] + list(a) + [")"]) for p, a in zip(h[0], args)}
             return _expr_inline(tokens[:i] + ["("] + _subst_tokens(h[2], m) + [")"] + tokens[j:], helpers, depth + 1)
     return tokens
@@ -1047,6 +1065,7 @@ def _hoist(tokens, helpers, used, lazy_ok=True):
     for _ in range(4):
         for i, j, name, args in _calls_in(tokens, helpers):
             h = _hinfo(helpers[name])
+            args = _with_defaults(args, helpers[name])
             if h and h[1] != [] and (h[2] or h[1] is None) and (h[3] or (not pre and _first_evaluated(tokens, i))) \
                     and len(args) == len(h[0]) and all(args) and not (i == 0 and j == len(tokens)):
                 tmp, n = f"{name}__ret", 1
@@ -1065,8 +1084,29 @@ def _hoist(tokens, helpers, used, lazy_ok=True):
 DROPPED = "__dropped"         # suffix of the name that receives the result of an inlined helper whose caller ignores it
 
 
+def param_defaults(header: str):
+    """default arguments of `type name(type a, type b = 1)` by position: [None, ['1']]; None when not understood"""
+    m = re.search(r"\(((?:[^()]|\([^()]*\))*)\)\s*(const)?\s*(:[^{};]*)?;?$", header.strip(), re.S)
+    if not m:
+        return None
+    inner = m.group(1).strip()
+    if not inner or inner == "void":
+        return []
+    return [piece[piece.index("=") + 1:] if "=" in piece else None for piece in _top_split(tokenize(inner), (",",))]
+
+
+def _with_defaults(args, helper):
+    """the arguments of a call with the trailing ones it leaves out filled in from the helper's default arguments (third
+    element of the helper, by position; taken from the definition or from the declaration in the class header)"""
+    n = len(helper[0])
+    if len(args) < n and len(helper) > 2 and helper[2] and len(helper[2]) == n and all(helper[2][len(args):]):
+        return list(args) + [list(d) for d in helper[2][len(args):]]
+    return args
+
+
 def _inlined(callee, args, target, helper, used):
     h = _hinfo(helper)
+    args = _with_defaults(args, helper)
     if h is None or len(args) != len(h[0]) or any(not a for a in args):
         return None                         # (returns from inside a loop: not modelled)
     params, stmts, ret, _ = h
